@@ -113,7 +113,7 @@ def sync_durability(out, ops):
     return problems, nsync_groups
 
 
-def check(out):
+def check(out, fault_run=False):
     thr, ops, final, done, problems = parse(out)
     sp, nsg = sync_durability(out, ops)
     problems += sp[:2]
@@ -129,7 +129,7 @@ def check(out):
             continue
         if o['op'] in ('P', 'D', 'B'):
             stats['writes'] += 1
-            if o['res'] != ['0']:
+            if o['res'] != ['0'] and not fault_run:
                 problems.append('VIOLATION[write] write returned %s' % o['res'])
         elif o['op'] == 'G':
             stats['reads'] += 1
